@@ -57,6 +57,8 @@ IdForm(b, k) ==
     CASE k = "upper"  -> [i \in DOMAIN b |-> IF b[i] \in 97..102 THEN b[i] - 32 ELSE b[i]]
       [] k = "braces" -> <<123>> \o b \o <<125>>
       [] k = "urn"    -> UrnPrefix \o b
+      [] k = "bare"   -> LET c == IF Len(b) > 9 /\ SubSeq(b, 1, 9) = UrnPrefix THEN SubSeq(b, 10, Len(b)) ELSE b
+                         IN IF Len(c) > 2 /\ c[1] = 123 /\ c[Len(c)] = 125 THEN SubSeq(c, 2, Len(c) - 1) ELSE c
 
 NeedsGen(d) == ~ObjHas(d[2], IdKey) \/ ObjLookup(d[2], IdKey) = <<"str", <<>>>>
 
